@@ -1,0 +1,50 @@
+//go:build verif
+
+package parser
+
+// Contracts for the govc verifier (/verif). Comment-only file: it contains no
+// executable code and is compiled only with the build tag `verif`.
+
+// ------------------------------------------------------------------ token.go
+// The schema lexer: the cursor stays inside the source, every scanning loop
+// makes progress (decreases), no index is out of range.
+//@ typeinv lexer 0 <= self.pos && self.pos <= len(self.src)
+//@ sweep C10 token.go
+
+//@ func (lexer) advance
+//@   results r
+//@   ensures l.src == old(l.src) && l.pos >= old(l.pos)
+//@   ensures old(l.pos) < len(old(l.src)) ==> l.pos > old(l.pos)
+//@ func (lexer) peek
+//@   results r
+//@   ensures l.src == old(l.src) && l.pos == old(l.pos)
+//@ func (lexer) position
+//@   ensures l.src == old(l.src) && l.pos == old(l.pos)
+//@ func (lexer) errorf
+//@   results err
+//@   ensures l.src == old(l.src) && l.pos == old(l.pos) && err != nil
+
+//@ func (lexer) skipWhitespaceAndComments
+//@   ensures l.src == old(l.src)
+//@   loop 1
+//@     invariant l.src == old(l.src)
+//@     decreases len(l.src) - l.pos
+//@   loop 1.1
+//@     invariant l.src == old(l.src) && l.pos >= old(l.pos)
+//@     decreases len(l.src) - l.pos
+//@   loop 1.2
+//@     invariant l.src == old(l.src) && l.pos >= old(l.pos)
+//@     decreases len(l.src) - l.pos
+//@ func (lexer) scanIdent
+//@   requires l.pos < len(l.src)
+//@   ensures l.src == old(l.src)
+//@   loop 1
+//@     invariant l.src == old(l.src) && start <= l.pos
+//@     decreases len(l.src) - l.pos
+//@ func (lexer) scanString
+//@   noinline Unquote
+//@   requires l.pos < len(l.src)
+//@   ensures l.src == old(l.src)
+//@   loop 1
+//@     invariant l.src == old(l.src) && start <= l.pos
+//@     decreases len(l.src) - l.pos
